@@ -344,26 +344,7 @@ func checkDownTemplates(c *Ctx) {
 	if found < 5 {
 		c.Unresolved("R17c", "sqltool templateFormatter(...) constants")
 	}
-	// rev function
-	if rf := c.Func("R17c", pSqltool, "", "reverse"); rf != nil {
-		// must copy then swap or fill from the end; it must not sort or filter: no call other than make/len/append/copy
-		pure := true
-		for _, call := range callsIn(rf.Decl.Body, true) {
-			if b := builtinName(rf.Info(), call); b == "" {
-				if tv, ok := rf.Info().Types[call.Fun]; !ok || !tv.IsType() {
-					pure = false
-				}
-			}
-		}
-		idx := false
-		ast.Inspect(rf.Decl.Body, func(m ast.Node) bool {
-			if be, ok := m.(*ast.BinaryExpr); ok && be.Op == token.SUB {
-				idx = true
-			}
-			return true
-		})
-		c.Check("R17c", "sqltool.reverse|pure reversal", rf.Decl.Pos(), pure && idx, "the template function rev must be a pure index reversal (no filtering, sorting or other calls)")
-	}
+	// the rev function itself is decided by R17j (complete reversal idioms)
 }
 
 func checkOneTemplate(c *Ctx, fmtr, nameT, text string, pos token.Pos) {
